@@ -209,6 +209,9 @@ func Parse(input string) (Version, error) {
 }
 
 func parseInto(result *Version, input string) error {
+	/* whatever the receiver held before must not leak into the new value */
+	*result = Version{}
+
 	trimmed := strings.TrimSpace(input)
 	if trimmed == "" {
 		return fmt.Errorf("version string is empty")
